@@ -297,7 +297,13 @@ func c14PKCS8(c *Ctx) {
 		spec, _ := defaultResultSpec(r)
 		ci.require(c, rule, "algorithm OID must be oidSM2", `re:call:reflect\.DeepEqual\(.*Algorithm.*global:oidSM2.*\)`, true, spec, nil, "a PKCS#8 key of another algorithm must be rejected")
 	}
-	if r := c.Fn("x509", "ParseSm2PrivateKey"); r != nil {
+	for _, pr := range [][3]string{{"x509", "ParseSm2PrivateKey", "x509.sm2PrivateKey"}, {"pkcs12", "parseECPrivateKey", "pkcs12.ecPrivateKey"}} {
+		r := c.Fn(pr[0], pr[1])
+		if r == nil {
+			c.Missing(rule, pr[0]+"."+pr[1], "function", "not found")
+			continue
+		}
+		keyOctets := "frombytes(local(" + pr[2] + ").PrivateKey"
 		be := newBigEnv(r, paramNames(r, "der"))
 		spec, _ := defaultResultSpec(r)
 		var atoms []Atom
@@ -308,7 +314,7 @@ func c14PKCS8(c *Ctx) {
 			}
 			x := normBig(be.valueAt(st.X, st.Call).String())
 			y := normBig(be.valueAt(st.Y, st.Call).String())
-			if strings.HasPrefix(x, "frombytes(local(x509.sm2PrivateKey).PrivateKey") && y == "N" {
+			if strings.HasPrefix(x, keyOctets) && (y == "N" || strings.HasSuffix(y, "Params().N")) {
 				if ps, ok := passSuccFor([3]bool{true, false, false}, st.TrueSet); ok {
 					atoms = append(atoms, Atom{ifi, ps, "d < n"})
 				}
@@ -317,7 +323,7 @@ func c14PKCS8(c *Ctx) {
 		g := evalGuard(c.P, r, atoms, spec, curveOps(r))
 		c.Check(g.OK, rule, fname(r), "d >= n rejected", g.Why, "a private scalar that is not below the group order must be rejected: "+g.Why, g.Pos)
 		fs := fieldStores(r, be)
-		c.Check(strings.HasPrefix(fs["D"], "frombytes(local(x509.sm2PrivateKey).PrivateKey"), rule, fname(r), "D = integer of the private key octets", "", "D is "+fs["D"], r.Pos())
+		c.Check(strings.HasPrefix(fs["D"], keyOctets), rule, fname(r), "D = integer of the private key octets", "", "D is "+fs["D"], r.Pos())
 		c.Check(strings.HasPrefix(fs["X"], "res0(call:ScalarBaseMult(") && strings.HasPrefix(fs["Y"], "res1(call:ScalarBaseMult("), rule, fname(r), "public key recomputed by base-point multiplication", "", "public point is "+fs["X"], r.Pos())
 		if sbm := findCall(r, "ScalarBaseMult"); sbm != nil {
 			arg := sbm.Common().Args[len(sbm.Common().Args)-1]
